@@ -116,6 +116,17 @@ fn fft_groups(tier: Tier) -> Vec<Vec<Cfg>> {
         pairs.push((8000, 48000));
         pairs.push((48000, 8000));
     }
+    // block sizes for which the FFT library needs scratch space (found with `hx fftscratch`: 83, 107,
+    // 149, 166, 169, 173 ... have a non-empty inverse scratch buffer) plus two ordinary primes
+    for (a, b) in [(1usize, 1usize), (1, 2), (2, 1), (3, 1), (1, 3)] {
+        for kind in [Kind::XI, Kind::XO, Kind::XX] {
+            let mut g = Vec::new();
+            for chunk in [37usize, 61, 83, 107, 149, 166, 169, 173] {
+                g.push(Cfg::fft(kind, a, b, chunk, 1));
+            }
+            groups.push(g);
+        }
+    }
     for (a, b) in pairs {
         for kind in [Kind::XI, Kind::XO, Kind::XX] {
             let mut g = Vec::new();
@@ -275,7 +286,7 @@ pub fn spec_for(id: &str, tier: Tier, cfg: &Cfg) -> Spec {
             _ => vec![],
         },
         final_layer_first_only: id == "C13",
-        sample_every: if id == "C10" { if q { 48 } else { 8 } } else { 0 },
+        sample_every: if id == "C10" { if q { 48 } else { 24 } } else { 0 },
     }
 }
 
